@@ -28,6 +28,9 @@ type TrackSpec struct {
 // PTSCase is the GlobalDecoder part of C15.
 type PTSCase struct {
 	Tracks []TrackSpec `json:"tracks"`
+	// ClockNs, when not empty, replaces the clock of pkg/rtptime (hook VerifSetTimeNow): before the n-th Decode call
+	// the clock advances by ClockNs[n % len] nanoseconds, and the placement of late tracks is judged exactly.
+	ClockNs []int64 `json:"clock_ns,omitempty"`
 }
 
 type fakeTrack struct {
@@ -48,6 +51,7 @@ type ptsStats struct {
 	Crossings int
 	Backward  int
 	Late      int
+	LateExact int
 }
 
 // RunPTS is the C15 PTS oracle.
@@ -60,6 +64,13 @@ func runPTS(c PTSCase) (*ptsStats, error) {
 	st := &ptsStats{}
 	var d rtptime.GlobalDecoder
 	d.Initialize()
+	useFake := len(c.ClockNs) > 0
+	fake := time.Unix(1600000000, 0)
+	calls := 0
+	if useFake {
+		rtptime.VerifSetTimeNow(func() time.Time { return fake })
+		defer rtptime.VerifSetTimeNow(nil)
+	}
 	type tstate struct {
 		tr       *fakeTrack
 		spec     TrackSpec
@@ -104,9 +115,22 @@ func runPTS(c PTSCase) (*ptsStats, error) {
 			if s.k < s.spec.LeadNoPTS {
 				pkt.PayloadType = 1
 			}
-			before := time.Now()
-			pts, ok := d.Decode(s.tr, pkt)
-			after := time.Now()
+			var before, after time.Time
+			var pts int64
+			var ok bool
+			if useFake {
+				if adv := c.ClockNs[calls%len(c.ClockNs)]; adv > 0 {
+					fake = fake.Add(time.Duration(adv))
+				}
+				calls++
+				before = fake
+				pts, ok = d.Decode(s.tr, pkt)
+				after = fake
+			} else {
+				before = time.Now()
+				pts, ok = d.Decode(s.tr, pkt)
+				after = time.Now()
+			}
 			s.k++
 			if !s.first {
 				if pkt.PayloadType == 1 {
@@ -134,6 +158,19 @@ func runPTS(c PTSCase) (*ptsStats, error) {
 					lo := mulDivExact(leaderPTS, int64(s.spec.ClockRate), lr)
 					loF, _ := lo.Float64()
 					el := after.Sub(leaderAt)
+					if useFake {
+						// the clock is the harness's: leader PTS and elapsed time are both rescaled to this track's clock,
+						// each rounded down by at most one tick
+						st.LateExact++
+						exact := new(big.Rat).Add(lo, mulDivExact(int64(el), int64(s.spec.ClockRate), int64(time.Second)))
+						diff := new(big.Rat).Sub(new(big.Rat).SetInt64(pts), exact)
+						if diff.Cmp(big.NewRat(2, 1)) > 0 || diff.Cmp(big.NewRat(-2, 1)) < 0 {
+							ex, _ := exact.Float64()
+							return st, fmt.Errorf("late track %d (rate %d) placed at PTS %d; leader (rate %d) was at PTS %d exactly %v before, which is %.3f on this track's clock (more than 2 ticks away)",
+								i, s.spec.ClockRate, pts, lr, leaderPTS, el, ex)
+						}
+						continue
+					}
 					hi := loF + el.Seconds()*float64(s.spec.ClockRate) + 2
 					if float64(pts) < loF-2 || float64(pts) > hi {
 						return st, fmt.Errorf("late track %d (rate %d) placed at PTS %d; leader (rate %d) was at PTS %d, so it must lie in [%.1f, %.1f] (elapsed %v)",
